@@ -82,6 +82,18 @@ impl DecisionEvaluator {
   }
 }
 
+#[cfg(dmntk_verif)]
+impl DecisionEvaluator {
+  /// Verification hook: registers a decision whose evaluation always panics.
+  pub fn verif_add_failing_decision(&mut self, decision_id: &str, name: Name) {
+    let variable = Variable { name, type_ref: None };
+    self.evaluators.insert(
+      decision_id.to_owned(),
+      (variable, Box::new(|_: &FeelContext, _: &ModelEvaluator, _: &mut FeelContext| panic!("verification hook: failing decision"))),
+    );
+  }
+}
+
 ///
 fn build_decision_evaluator(definitions: &Definitions, decision: &Decision, model_evaluator: &ModelEvaluator) -> Result<DecisionEvaluatorEntry> {
   // acquire all needed evaluators
